@@ -8,6 +8,13 @@ Theorem C09_roundtrip : forall e v, wf_env e v = true -> no_reserved v = true ->
 Proof. exact deser_ser. Qed.
 Print Assumptions C09_roundtrip.
 
+(* The same with the side condition moved to the class environment: every well-formed value round-trips as soon as no task
+   class declares a parameter called _is_task or __class__ (no dataclass can). *)
+Theorem C09_roundtrip_all_values : forall e v, env_ok e = true -> wf_env e v = true ->
+  deser deser_mode_src e (ser_of ser_mode_src v) = Some v.
+Proof. exact deser_ser_env. Qed.
+Print Assumptions C09_roundtrip_all_values.
+
 (* ... which is false for a deserialize_value that does not recurse into lists and dicts. *)
 Theorem C09_shallow_refuted : exists e v, wf_env e v = true /\ no_reserved v = true /\ deser DShallow e (ser v) <> Some v.
 Proof. exact deser_shallow_refuted. Qed.
